@@ -152,4 +152,6 @@ func c05(c *Check) {
 	ackSpec(c, "C05/ack-processed-once")
 }
 
-func itoa(i int) string { return strings.TrimSpace(strings.Replace(strings.Repeat(" ", 0)+sprint(i), "\n", "", -1)) }
+func itoa(i int) string {
+	return strings.TrimSpace(strings.Replace(strings.Repeat(" ", 0)+sprint(i), "\n", "", -1))
+}
